@@ -1286,6 +1286,12 @@ class Generator:
         else:
             return None
         self._kn(op, ["broadcast", "shuffle_method", "npartitions_hint"])
+        if how == "leftsemi":
+            # known finding KF-C10-leftsemi-bcast-hint (probed under C10): a broadcast leftsemi join with an npartitions
+            # hint splits its left side with other hash dtypes than the shuffled right side. The knob is removed
+            # after the draw so that the random stream of every other recipe stays as it was.
+            op["knob_names"].remove("npartitions_hint")
+            op["knobs"].pop("npartitions_hint", None)
         return self.try_add(op, "open", labels, self.next_id, None)
 
     def _atom(self, c, kind):
@@ -1582,6 +1588,12 @@ class Generator:
             # first/last keep the order-preserving tree reduction
             names = ["split_every"]
         self._kn(op, names)
+        if op.get("observed") is False and len(by) > 1 and "split_every" in op["knob_names"]:
+            # known finding KF-C10-cat-unobserved-multikey-tree (probed under C10): several keys, one of them categorical,
+            # observed=False and a reduction tree of more than two levels return index entries more than once.
+            # Removed after the draw (see g_merge).
+            op["knob_names"].remove("split_every")
+            op["knobs"].pop("split_every", None)
         return self.try_add(op, "open", "defined", self.next_id, None)
 
     def g_groupby_udf(self):
